@@ -13,7 +13,7 @@ import (
 
 func init() {
 	register("C10",
-		"the field analysis has an arm for every node type and an error default; each arm visits every value-position child (derived from the struct declarations) on every non-error path, list children element by element from 0 to Len(), propagates child errors, and skips exactly the callee position of calls; dotted chains are collected base-first, joined with `.` and refused on other bases; identifiers contribute their name; the result is de-duplicated; the non-local variant keeps exactly the entries without `$` prefix; the evaluator reads the data map only in the identifier handler, the `this` literal and the setters.",
+		"the field analysis has an arm for every node type and an error default; each arm visits every value-position child (derived from the struct declarations) on every non-error path, list children element by element from 0 to Len(), propagates child errors, and skips exactly the callee position of calls; dotted chains are collected base-first, joined with `.` and refused on other bases; identifiers contribute their name; the result is de-duplicated; the non-local variant keeps exactly the entries without `$` prefix; the evaluator reads the data map only in the identifier handler, the `this` literal and the setters. A name is any token of the identifier class: no refusal on Identifier.OriginalToken != SK_Identifier.",
 		"the semantic sufficiency statement (two data maps agreeing on the reported names give the same result) and the treatment of `this.k`.",
 		runC10)
 }
@@ -303,6 +303,7 @@ func runC10(c *Ctx) {
 	c10Dedup(c, d)
 	c10ByReference(c, d)
 	c10DataReads(c)
+	c10NameClass(c)
 	// member access on `(x)` is refused only as long as the parser keeps the parentheses in the tree
 	if ro := c.needRoles("C10.parser-roles"); ro != nil {
 		c02NoUnwrap(c, ro, "C10.parentheses-kept")
@@ -787,11 +788,17 @@ func c10Chain(c *Ctx, d *Dispatcher) {
 	if idArm != nil {
 		// returns []string{n.Value}
 		okv := false
-		for _, in := range idArm.Block.Instrs {
-			if st, ok := in.(*ssa.Store); ok {
-				for _, rt := range plainOrigins.Roots(st.Val) {
-					if len(rt.Path) == 1 && rt.Path[0] == "Value" {
-						okv = true
+		// in the arm: its first block or any block behind it (a guard that refuses a placeholder name comes first)
+		for _, ab := range coll.Blocks {
+			if ab != idArm.Block && !idArm.Block.Dominates(ab) {
+				continue
+			}
+			for _, in := range ab.Instrs {
+				if st, ok := in.(*ssa.Store); ok {
+					for _, rt := range plainOrigins.Roots(st.Val) {
+						if len(rt.Path) == 1 && rt.Path[0] == "Value" {
+							okv = true
+						}
 					}
 				}
 			}
@@ -1838,4 +1845,114 @@ func (c *Ctx) byReference(rule string, nt *types.Named, what string, roots ...*s
 		c.R.Check(rule, c.P.FuncKey(f), c.P.Pos(f.Pos()), bad == "", "the "+what+" must be shared by reference: "+bad+"; what is stored through the copy (a data map created on first use, a local bound there) is lost when the function returns")
 	}
 	c.R.Floor(rule, 5)
+}
+
+// c10NameClass: a name in the tree is any token of the identifier class - after a dot a keyword is a name too
+// (`order.this`, `row.null`, `cfg.typeof.max`), and the node records the keyword's own kind as its original token. The
+// analysis (and the collector it shares with the evaluator) must therefore not take "original token is not
+// SK_Identifier" for "not a name": a test of Identifier.OriginalToken for (in)equality with that one constant whose
+// unequal edge ends in an error refuses paths the evaluator reads.
+func c10NameClass(c *Ctx) {
+	const rule = "C10.names-are-the-identifier-class"
+	ident := c.SK("SK_Identifier")
+	roots := []*ssa.Function{c.fn("ResolveReferenceFields"), c.fn("ResolveReferenceFieldsNotLocal")}
+	rr := c.ReachFrom("c10-name-class", roots...)
+	n := 0
+	// the test made in a predicate (`func isMissing(id) bool { return id == nil || id.OriginalToken != SK_Identifier }`)
+	// whose callers refuse on its answer
+	for _, f := range rr.Order {
+		if f.Signature.Results().Len() != 1 || !isBoolType(f.Signature.Results().At(0).Type()) {
+			continue
+		}
+		var test ssa.Instruction
+		instrs(f, func(b *ssa.BasicBlock, i int, in ssa.Instruction) {
+			bo, ok := in.(*ssa.BinOp)
+			if !ok || (bo.Op != token.EQL && bo.Op != token.NEQ) {
+				return
+			}
+			var fld ssa.Value
+			if k, isK := constIntArg(bo.Y); isK && k == ident {
+				fld = bo.X
+			} else if k, isK := constIntArg(bo.X); isK && k == ident {
+				fld = bo.Y
+			}
+			if u, isU := fld.(*ssa.UnOp); isU {
+				if fa, isFA := u.X.(*ssa.FieldAddr); isFA && fieldName(fa) == "OriginalToken" {
+					test = in
+				}
+			}
+		})
+		if test == nil {
+			continue
+		}
+		for _, g := range rr.Order {
+			instrs(g, func(b *ssa.BasicBlock, i int, in ssa.Instruction) {
+				iff, ok := in.(*ssa.If)
+				if !ok {
+					return
+				}
+				cond := iff.Cond
+				if u, isU := cond.(*ssa.UnOp); isU && u.Op == token.NOT {
+					cond = u.X
+				}
+				call, ok := cond.(*ssa.Call)
+				if !ok || calleeOf(call) != f {
+					return
+				}
+				if c.blockReturnsError(b.Succs[0]) || c.blockReturnsError(b.Succs[1]) {
+					n++
+					c.R.Add(rule, fmt.Sprintf("%s:refusal-on-%s#%d", c.P.FuncKey(g), f.Name(), n), c.P.InstrPos(in), Violation, "a name is refused on the answer of "+c.P.FuncKey(f)+", which compares Identifier.OriginalToken with SK_Identifier itself ("+c.P.InstrPos(test)+"): after a dot every keyword is a name (`order.this`, `row.null`), recorded with its own token kind; the class test is IsIdentifier()")
+				}
+			})
+		}
+	}
+	for _, f := range rr.Order {
+		instrs(f, func(b *ssa.BasicBlock, i int, in ssa.Instruction) {
+			iff, ok := in.(*ssa.If)
+			if !ok {
+				return
+			}
+			conds := conjunctsOf(iff.Cond, 0)
+			disj := false
+			if conds == nil {
+				// `a || b` lowered to a value: the true edge is taken when any of them holds
+				if ds := junctsOf(iff.Cond, "||", 0); ds != nil {
+					conds, disj = ds, true
+				} else {
+					conds = []ssa.Value{iff.Cond}
+				}
+			}
+			for _, cd := range conds {
+				bo, ok := cd.(*ssa.BinOp)
+				if !ok || (bo.Op != token.EQL && bo.Op != token.NEQ) {
+					continue
+				}
+				if disj && bo.Op != token.NEQ {
+					continue
+				}
+				var fld ssa.Value
+				if k, isK := constIntArg(bo.Y); isK && k == ident {
+					fld = bo.X
+				} else if k, isK := constIntArg(bo.X); isK && k == ident {
+					fld = bo.Y
+				}
+				u, isU := fld.(*ssa.UnOp)
+				if !isU {
+					continue
+				}
+				fa, isFA := u.X.(*ssa.FieldAddr)
+				if !isFA || fieldName(fa) != "OriginalToken" {
+					continue
+				}
+				n++
+				ne := 1 // successor on which the token is NOT SK_Identifier
+				if bo.Op == token.NEQ {
+					ne = 0
+				}
+				refuses := c.blockReturnsError(b.Succs[ne]) || c.rejects(b, ne, nil, nil)
+				c.R.Check(rule, fmt.Sprintf("%s:original-token-test#%d", c.P.FuncKey(f), n), c.P.InstrPos(in), !refuses, "a name whose original token is not SK_Identifier is refused: after a dot every keyword is a name (`order.this`, `row.null`), recorded with its own token kind; the class test is IsIdentifier()")
+			}
+		})
+	}
+	c.R.Analysed["original_token_tests_in_analysis"] = n
 }
